@@ -328,7 +328,7 @@ pub fn run_conc(tape: &mut Tape, cfg: &ConcCfg, detail: bool) -> ConcRun {
         let adv_count = adv_count.clone();
         let freeze = cfg.freeze;
         bodies.push(Box::new(move || {
-            let env = OpEnv { sim: sim.clone(), proc, part: p as i32, scratch: SCRATCH.to_string(), chunk, temp_mode: None, link_from: None };
+            let env = OpEnv { sim: sim.clone(), proc, part: p as i32, scratch: SCRATCH.to_string(), chunk, temp_mode: None, link_from: None, src_skew_ns: 0 };
             for (i, step) in prog.iter().enumerate() {
                 let op_id = (p as u32 + 1) * 1000 + i as u32;
                 match step {
